@@ -70,7 +70,7 @@ def check_graph(case, rec):
     random.seed(case.get("py_seed", 0))
     df = call("graph_clustering", pyrepseq.graph_clustering, adj, nodes, clustering=method)
     if not isinstance(df, pd.DataFrame) or "cluster" not in df.columns or "node" not in df.columns:
-        raise Violation("cluster-frame", f"unexpected result {type(df).__name__} / columns {list(getattr(df, 'columns', []))}")
+        raise RuntimeError(f"harness: graph_clustering returned {type(df).__name__} / columns {list(getattr(df, 'columns', []))}")
     # recover positions of the returned rows
     if case["nodes_as"] == "series":
         posmap = {f"s{i}": i for i in range(n)}
